@@ -100,65 +100,88 @@ class Ctx:
         return self.eng.is_sat(z3.Not(formula)) == "unsat"
 
 
-def _dyadic(ctx, shift, bound):
-    z3 = ctx.z3
-    cs = []
-    for n, z in ctx.consts.items():
-        k = z3.Int("dy_" + n)
-        cs.append(z * (1 << shift) == z3.ToReal(k))
-        cs.append(z <= bound)
-        cs.append(z >= -bound)
-    return cs
+def _candidates(v):
+    """Nearby exactly-representable values for a model value v (Fraction)."""
+    out = []
+    for d in (1, 2, 8, 256, 65536):
+        c = Fraction(round(v * d), d)
+        if c not in out:
+            out.append(c)
+    return out
 
 
 def find_witnesses(ctx, extra, k=1):
     """Concrete values of the harness constants on this path (satisfying `extra`).
 
     Preference: every LP optimum is a basic solution (de-facto HiGHS contract) and the
-    constants are small dyadic rationals (exactly representable as floats).
+    constants are small dyadic rationals (exactly representable as floats).  The dyadic
+    values are found by greedy rounding of a model, one constant at a time, each step
+    re-checked by the solver (pure linear real arithmetic).
     """
+    from .oracle import ev
+
     z3 = ctx.z3
     eng = ctx.eng
+    E = ctx.E
     out = []
-    basic = list(eng.lp_basic_facts)
-    levels = [
-        ("basic+dyadic3", basic + _dyadic(ctx, 3, 16)),
-        ("basic+dyadic8", basic + _dyadic(ctx, 8, 64)),
-        ("basic", basic),
-        ("plain", []),
-    ]
-    if not basic:
-        levels = [("dyadic3", _dyadic(ctx, 3, 16)), ("dyadic8", _dyadic(ctx, 8, 64)), ("plain", [])]
     blocked = []
+    names = list(ctx.consts)
     for _ in range(k):
         got = None
-        for name, cons in levels:
-            old = eng.s.get if False else None
+        eng.s.push()
+        try:
+            eng.s.set("timeout", 5000)
+            for c in list(extra) + blocked:
+                eng.s.add(c)
+            level = "basic" if eng.lp_basic_facts else "free"
             eng.s.push()
-            try:
-                eng.s.set("timeout", 5000)
-                for c in list(extra) + cons + blocked:
-                    eng.s.add(c)
-                r = eng.check()
-                if str(r) == "sat":
-                    m = eng.s.model()
-                    vals = {}
-                    from .oracle import ev
-
-                    for n, z in ctx.consts.items():
-                        vals[n] = str(ev(m, z))
-                    got = {"level": name, "consts": vals}
-            finally:
+            for c in eng.lp_basic_facts:
+                eng.s.add(c)
+            r = str(eng.check())
+            if r != "sat":
                 eng.s.pop()
-                eng.s.set("timeout", eng.timeout_ms)
-            if got:
-                break
+                eng.s.push()
+                level = "lp-choice-dependent"
+                r = str(eng.check())
+            if r == "sat":
+                m = eng.s.model()
+                dyadic = True
+                vals = {}
+                for n in names:
+                    z = ctx.consts[n]
+                    v = ev(m, z)
+                    fixed = None
+                    for cand in _candidates(v):
+                        if cand == v:
+                            fixed = cand
+                            break
+                        eng.s.push()
+                        eng.s.add(z == E.q(cand))
+                        rr = str(eng.check())
+                        if rr == "sat":
+                            m = eng.s.model()
+                            eng.s.pop()
+                            fixed = cand
+                            break
+                        eng.s.pop()
+                    if fixed is None:
+                        fixed = v
+                    eng.s.add(z == E.q(fixed))
+                    if float(fixed) != fixed:
+                        dyadic = False
+                    vals[n] = str(fixed)
+                # the fixed values are jointly satisfiable by construction (each step checked)
+                got = {"level": level + ("+dyadic" if dyadic else ""), "consts": vals}
+            eng.s.pop()
+        finally:
+            eng.s.pop()
+            eng.s.set("timeout", eng.timeout_ms)
         if not got:
             break
         out.append(got)
-        if not ctx.consts:
+        if not names:
             break
-        blocked.append(z3.Or(*[z != ctx.E.q(Fraction(got["consts"][n])) for n, z in ctx.consts.items()]))
+        blocked.append(z3.Or(*[ctx.consts[n] != E.q(Fraction(got["consts"][n])) for n in names]))
     return out
 
 
@@ -323,6 +346,10 @@ def sym_worker(args):
             }
             # witness of the path itself (for differential replay), with the result evaluated on it
             want = opts.get("path_witness", True)
+            rate = opts.get("witness_rate", 1.0)
+            if want and rate < 1.0 and eng.stats.paths > 0:
+                hsh = int(hashlib.sha1(repr((job, eng.trace)).encode()).hexdigest()[:8], 16) / 0xFFFFFFFF
+                want = hsh < rate or any(o["status"] != "ok" for o in ctx.obligations)
             if want and ctx.consts:
                 ws = find_witnesses(ctx, [], k=1)
                 if ws:
@@ -509,6 +536,7 @@ def run_check(prop, tier, seed=None):
     opts.setdefault("job_budget_s", 120 if tier == "quick" else 900)
     opts.setdefault("trace_functions", True)
     opts.setdefault("validate_lp", tier == "thorough")
+    opts.setdefault("witness_rate", 0.3 if tier == "quick" else 1.0)
     nproc = int(os.environ.get("VERIF_NPROC", "16"))
     jobs = mod.jobs(tier, seed)
     budget = opts.get("tier_budget_s", 170 if tier == "quick" else 1500)
@@ -542,7 +570,7 @@ def run_check(prop, tier, seed=None):
     replay_items = []  # (kind, rec_idx, path_idx, obl_idx, wit_idx)
     meta = []
     engine_errors = [r["error"] for r in recs if r.get("error")]
-    sample_rate = opts.get("replay_sample", 1.0 if tier == "thorough" else 0.5)
+    sample_rate = opts.get("replay_sample", 1.0)
     max_pass_replays = opts.get("max_pass_replays", 400 if tier == "quick" else 6000)
     pass_candidates = []
     for ri, r in enumerate(recs):
